@@ -196,6 +196,30 @@ theorem tdiv_r_refines (s : St) (r n d : Nat) (hs : s.ok = true)
     simp only [toLimbs_len] at T
     exact T
 
+/-- necessity for mpz_tdiv_r: with `MPZ_REALLOC (rem, dl - 1)` the store of the `dl` remainder limbs leaves the block whenever
+    the block has to grow (rem neither operand, numerator at least as long as the denominator) -/
+theorem tdiv_r_request_necessary (s : St) (r n d : Nat) (hr : OWF (s.h r)) (hd0 : (s.h d).size ≠ 0)
+    (hnr : n ≠ r) (hdr : d ≠ r) (hge : (s.h d).size.natAbs ≤ (s.h n).size.natAbs)
+    (hsmall : (s.h r).buf.alloc < (s.h d).size.natAbs) :
+    ∃ s', tdiv_r 1 s r n d = some s' ∧ s'.ok = false := by
+  unfold tdiv_r
+  rw [show s.SIZ n = (s.h n).size from rfl, show s.SIZ d = (s.h d).size from rfl]
+  have hdl0 : ((s.h d).size.natAbs == 0) = false := by simpa using hd0
+  have hle : ¬ (s.h n).size.natAbs + 1 ≤ (s.h d).size.natAbs := by omega
+  have e1 : (d == r) = false := by simpa using hdr
+  have e2 : (n == r) = false := by simpa using hnr
+  simp only [hdl0, Bool.false_eq_true, if_false, hle, e1, e2, copyIfSame]
+  refine ⟨_, rfl, ?_⟩
+  have h1 : 1 ≤ (s.h r).buf.alloc := hr.2.1
+  have ha := MPZ_REALLOC_alloc s r ((s.h d).size.natAbs - 1) h1
+  have hbad : (mpn_tdiv_qr_tmpq (MPZ_REALLOC s r ((s.h d).size.natAbs - 1))
+      ((s.h n).size.natAbs - (s.h d).size.natAbs + 1) ((MPZ_REALLOC s r ((s.h d).size.natAbs - 1)).PTR r)
+      (Src.ptr ((MPZ_REALLOC s r ((s.h d).size.natAbs - 1)).PTR n)) (s.h n).size.natAbs
+      (Src.ptr ((MPZ_REALLOC s r ((s.h d).size.natAbs - 1)).PTR d)) (s.h d).size.natAbs).ok = false := by
+    simp only [mpn_tdiv_qr_tmpq, wr_ok, chk_h, PTR_id, PTR_off, toLimbs_len, ha, Bool.and_eq_false_iff, decide_eq_false_iff_not]
+    right; omega
+  simp only [MPN_NORMALIZE, setSize_ok, chk_ok, hbad, Bool.false_and]
+
 /-! ## the values -/
 
 theorem sval_tdiv2 (ns ds : Int) (a b : Nat) :
